@@ -379,7 +379,10 @@ func (e *eng) folds() {
 		_ = nodeT
 		return renderNode(res), ""
 	}
-	type tc struct{ fn, what, want string; args []absint.Val }
+	type tc struct {
+		fn, what, want string
+		args           []absint.Val
+	}
 	cases := []tc{
 		{"mkLeftChain", "a o1 b o2 c folds to the left", `[BinOp{Op:"o2" Left:BinOp{Op:"o1" Left:Name"a" Right:Name"b"} Right:Name"c"}]`,
 			[]absint.Val{opaque("a"), op("o1"), opaque("b"), op("o2"), opaque("c")}},
